@@ -393,6 +393,17 @@ class C07(Driver):
                 continue
             si = a["ch"][0]
             st = steps[si]
+            # Only gives issued when the victim was no longer there count: after its wait had returned, or after
+            # the ev/cancel that ended it had been issued. (A give that hands its item to a waiter which is cancelled
+            # in the same instant, before it could run, loses the item by design: the waiter was still there.)
+            if si not in inv:
+                continue
+            gone = ret[si][0].seq if si in ret else None
+            for c in cancels:
+                if c.seq > inv[si].seq and (gone is None or c.seq < gone):
+                    gone = c.seq
+            if gone is None or j not in ainv or ainv[j].seq < gone:
+                continue
             # the adversary's give on an unbuffered channel completed: somebody must have received the value
             got = False
             if si in ret:
